@@ -79,6 +79,7 @@ func spec(nonce int) []byte {
 				"responses": map[string]any{"200": map[string]any{"description": "ok", "headers": map[string]any{"X-N": map[string]any{"schema": map[string]any{"type": "integer"}}},
 					"content": map[string]any{"application/json": map[string]any{"schema": map[string]any{"type": "array", "items": map[string]any{"$ref": "#/components/schemas/Item"}}}}}},
 			},
+			"head": map[string]any{"responses": map[string]any{"200": map[string]any{"description": "ok"}}},
 			"get": map[string]any{"parameters": []any{map[string]any{"name": "verbose", "in": "query", "required": true, "schema": map[string]any{"type": "boolean"}}},
 				"responses": map[string]any{"200": map[string]any{"description": "ok"}}},
 			"delete": map[string]any{"parameters": []any{map[string]any{"name": "X-Confirm", "in": "header", "required": true, "schema": map[string]any{"type": "string", "enum": []any{"yes"}}}},
@@ -91,11 +92,15 @@ func spec(nonce int) []byte {
 }
 
 type world struct {
-	doc   *openapi3.T
-	gmux  routers.Router
-	leg   routers.Router
-	types []reflect.Type
-	nonce int
+	// sharedOpts: the options objects every request / response operation of this world passes in (one
+	// per multi-error setting), the way a long-lived Validator passes its own. nil in the worlds
+	// that compute the expected verdicts: there every call gets options of its own.
+	sharedOpts map[bool]*openapi3filter.Options
+	doc        *openapi3.T
+	gmux       routers.Router
+	leg        routers.Router
+	types      []reflect.Type
+	nonce      int
 }
 
 func newWorld(nonce int) *world {
@@ -124,6 +129,13 @@ func newWorld(nonce int) *world {
 	})
 	w.types = []reflect.Type{inner, outer}
 	return w
+}
+
+func (w *world) options(multi bool) *openapi3filter.Options {
+	if w.sharedOpts != nil {
+		return w.sharedOpts[multi]
+	}
+	return &openapi3filter.Options{MultiError: multi}
 }
 
 func (w *world) bodies() []string {
@@ -198,6 +210,9 @@ func (w *world) run(op Op) string {
 			return "route-error"
 		}
 		in := &openapi3filter.RequestValidationInput{Request: req, PathParams: pp, Route: route, Options: &openapi3filter.Options{SkipSettingDefaults: op.Kind == "request-skip", MultiError: op.Variant%2 == 0}}
+		if op.Kind == "request" {
+			in.Options = w.options(op.Variant%2 == 0)
+		}
 		if op.Kind == "request-ci" {
 			// a per-call regex implementation: what it decides must stay with this call
 			in.Options.RegexCompiler = caseInsensitive
@@ -212,6 +227,10 @@ func (w *world) run(op Op) string {
 		return "request-valid:" + string(b) + "?" + req.URL.RawQuery
 	case "response":
 		req := w.request(0)
+		if op.Variant%6 == 5 {
+			// the response to a HEAD request: never checked, and nothing may remain of that
+			req, _ = http.NewRequest("HEAD", req.URL.String(), nil)
+		}
 		route, pp, err := w.gmux.FindRoute(req)
 		if err != nil {
 			return "route-error"
@@ -224,7 +243,8 @@ func (w *world) run(op Op) string {
 		} else if op.Variant%5 == 0 {
 			hdr.Set("X-N", "nan")
 		}
-		in := &openapi3filter.ResponseValidationInput{RequestValidationInput: &openapi3filter.RequestValidationInput{Request: req, PathParams: pp, Route: route}, Status: 200, Header: hdr, Body: io.NopCloser(strings.NewReader(body))}
+		ropts := w.options(op.Variant%4 < 2)
+		in := &openapi3filter.ResponseValidationInput{RequestValidationInput: &openapi3filter.RequestValidationInput{Request: req, PathParams: pp, Route: route, Options: ropts}, Status: 200, Header: hdr, Body: io.NopCloser(strings.NewReader(body)), Options: ropts}
 		if err := openapi3filter.ValidateResponse(context.Background(), in); err != nil {
 			return "response-invalid"
 		}
@@ -265,6 +285,7 @@ func check(c Case) (o h.Outcome) {
 	// the concurrent phase runs first, on fresh patterns and Go types, so that first-use paths
 	// (pattern compilation, the generator's type cache) are exercised concurrently
 	shared := newWorld(c.Nonce)
+	shared.sharedOpts = map[bool]*openapi3filter.Options{false: {}, true: {MultiError: true}}
 	before, _ := json.Marshal(shared.doc)
 	got := make([][]string, len(c.Ops))
 	var wg sync.WaitGroup
